@@ -8,7 +8,7 @@ from concurrent.futures import ThreadPoolExecutor
 
 VERIF = os.path.dirname(os.path.dirname(os.path.abspath(__file__)))
 COQDIR = os.path.join(VERIF, "coq")
-BUILD = os.path.join(VERIF, "build")
+BUILD = os.environ.get("VERIF_BUILD_DIR") or os.path.join(VERIF, "build")  # scratch (case files); per-process override for parallel tooling
 
 
 def nat_list(l):
